@@ -761,6 +761,91 @@ Section Spec.
     intros cs ws m pos c w H E. destruct (qubit_weight_matches _ _ _ pos H) as [P Q].
     rewrite E in P. apply Permutation_sym, Permutation_length_1_inv in P. rewrite Q, P. auto.
   Qed.
+  (** ** Registers, maps and layouts agree: a qubit sitting on trap [i] of a
+      layout gets, from the detuning map defined on that layout, the weight
+      given to trap [i] (and nothing if none was given), provided the traps
+      of the layout are separated by more than the matching tolerance *)
+  Lemma znth_nodup_inj : forall (S : list coord) i k c,
+    NoDup S -> znth S i = Some c -> znth S k = Some c -> i = k.
+  Proof.
+    intros S i k c ND H1 H2.
+    pose proof (find_last_nodup S c 0 i None ND H1) as A.
+    pose proof (find_last_nodup S c 0 k None ND H2) as B.
+    rewrite A in B. inversion B. lia.
+  Qed.
+
+  Lemma zassoc_none : forall A i (kws : list (Z * A)), ~ In i (map fst kws) -> zassoc i kws = None.
+  Proof.
+    induction kws as [|[k w] r IH]; intros H; simpl in *; auto.
+    destruct (k =? i) eqn:E; [apply Z.eqb_eq in E; subst; exfalso; apply H; left; auto|].
+    apply IH. intro; apply H; right; auto.
+  Qed.
+
+  Lemma map_id_on : forall A (f : A -> A) l, (forall x, In x l -> f x = x) -> map f l = l.
+  Proof.
+    induction l as [|a r IH]; intros H; simpl; auto.
+    rewrite H by (left; auto). f_equal. apply IH. intros; apply H; right; auto.
+  Qed.
+
+  Lemma matches_on_layout : forall (S : list coord) c i,
+    NoDup S -> znth S i = Some c ->
+    (forall a b, In a S -> In b S -> cclose N nclose a b = true -> a = b) ->
+    cclose N nclose c c = true ->
+    forall (kws : list (Z * W)) cs',
+      map (znth S) (map fst kws) = map Some cs' ->
+      NoDup (map fst kws) ->
+      filter (fun tw : coord * W => cclose N nclose (fst tw) c) (combine cs' (map snd kws)) =
+      match zassoc i kws with Some w => [(c, w)] | None => [] end.
+  Proof.
+    intros S c i ND Hi Sep Refl. induction kws as [|[k w] kws IH]; intros cs' H NDk; simpl in *.
+    - destruct cs'; auto.
+    - destruct cs' as [|c' cs']; try discriminate. inversion H as [[H1 H2]].
+      inversion NDk as [|? ? Hk NDr]; subst. simpl.
+      destruct (k =? i) eqn:E.
+      + apply Z.eqb_eq in E. subst k. assert (c' = c) by congruence. subst c'. rewrite Refl.
+        f_equal. rewrite (IH cs' H2 NDr). rewrite zassoc_none; auto.
+      + destruct (cclose N nclose c' c) eqn:Ec.
+        * exfalso. apply Sep in Ec; [| eapply znth_In; eauto | eapply znth_In; eauto]. subst c'.
+          assert (i = k) by (eapply znth_nodup_inj; eauto). subst. rewrite Z.eqb_refl in E. discriminate.
+        * apply IH; auto.
+  Qed.
+
+  Theorem layout_map_register_agree : forall l L kws m i c,
+    traps_new l = Ok L -> NoDup (map crnd l) ->
+    (forall a b, In a (lsorted L) -> In b (lsorted L) -> cclose N nclose a b = true -> a = b) ->
+    (forall a, In a (lsorted L) -> cclose N nclose a a = true) ->
+    layout_detuning_map N nlt neq nrnd W wok L kws = Ok m ->
+    NoDup (map fst kws) ->
+    znth (lsorted L) i = Some c ->
+    qubit_weight m c = wsum W w0 wadd (match zassoc i kws with Some w => [w] | None => [] end).
+  Proof.
+    intros l L kws m i c HL ND Sep Refl HM NDk Hi.
+    apply traps_new_ok in HL. destruct HL as (d & Hs & _ & Hd & HS).
+    assert (NDS : NoDup (lsorted L)).
+    { rewrite HS. eapply Permutation_NoDup; [apply Permutation_sym, sorted_coords_perm | auto]. }
+    unfold TrapMap.layout_detuning_map in HM.
+    step HM E1; try discriminate.
+    destruct (all_some (map (znth (lsorted L)) (map fst kws))) as [cs'|] eqn:E2.
+    2: { destruct (map fst kws) as [|k1 [|k2 ks]]; discriminate. }
+    assert (HW : wmap_new cs' (map snd kws) = Ok m).
+    { destruct (map fst kws) as [|k1 [|k2 ks]]; try discriminate; auto. }
+    apply all_some_inv in E2.
+    destruct (qubit_weight_matches _ _ _ c HW) as [P Q]. rewrite Q.
+    assert (Hid : map crnd cs' = cs').
+    { apply map_id_on. intros x Hx. apply (in_map Some) in Hx. rewrite <- E2 in Hx.
+      apply in_map_iff in Hx. destruct Hx as (k & Hk & _). apply znth_In in Hk.
+      rewrite HS in Hk. apply sorted_elem_rounded in Hk. tauto. }
+    rewrite Hid in P.
+    pose proof (matches_on_layout (lsorted L) c i NDS Hi Sep (Refl c (znth_In _ _ _ _ Hi)) kws cs' E2 NDk) as M.
+    match type of P with
+    | Permutation _ ?r =>
+        assert (EQ : r = match zassoc i kws with Some w => [(c, w)] | None => [] end) by exact M;
+        rewrite EQ in P
+    end.
+    destruct (zassoc i kws) as [w|].
+    - apply Permutation_sym, Permutation_length_1_inv in P. rewrite P. auto.
+    - apply Permutation_sym, Permutation_nil in P. rewrite P. auto.
+  Qed.
 End Spec.
 
 (** * The hypotheses are satisfiable: exact coordinates on a decimal sub-grid *)
@@ -805,6 +890,24 @@ Example zgrid_example :
   traps_new Z Z.ltb Z.eqb (zgrid_rnd 10) [[50; 0]; [0; 14]; [0; -26]; [-4; 7]]
   = Ok (mkLayout 2 [[0; -30]; [0; 10]; [0; 10]; [50; 0]]).
 Proof. vm_compute. reflexivity. Qed.
+
+(** layout, register and detuning map evaluated together on the grid
+    (weights in thousandths): qubits on traps 2 and 0 get the weights given to
+    traps 2 and 0 *)
+Example zgrid_agree_example :
+  match traps_new Z Z.ltb Z.eqb (zgrid_rnd 10) [[500; 0]; [0; 140]; [0; -260]] with
+  | Ok L =>
+      match define_register Z Z.eqb L [2; 0] [],
+            layout_detuning_map Z Z.ltb Z.eqb (zgrid_rnd 10) Z
+              (fun w => (0 <=? w) && (w <=? 1000)) L [(0, 250); (2, 1000)] with
+      | Ok R, Ok m =>
+          map (fun q => qubit_weight Z (zgrid_close 10) Z 0 Z.add m (snd q)) (rqubits R) = [1000; 250]
+          /\ lookup Z Z.eqb (zgrid_rnd 10) L (map snd (rqubits R)) = Ok [2; 0]
+      | _, _ => False
+      end
+  | Err _ => False
+  end.
+Proof. vm_compute. split; reflexivity. Qed.
 
 (** * What the implementation (IEEE instance) does outside the hypotheses *)
 
